@@ -102,6 +102,11 @@ class C15:
                 if os.path.exists(p):
                     os.remove(p)
             env = {"VERIF_TIER": "quick" if wrapper else tier, "VERIF_SEED": str(seed), "VERIF_SHARD": f"{i}/{h.shards}"}
+            if h.name.endswith("_hist") and tier == "thorough":
+                # the exhaustive length-4 enumeration over 3 slots belongs to C12's own thorough tier (43 min per build);
+                # here: quick enumeration, but many more random histories, in every configuration
+                env["VERIF_TIER"] = "quick"
+                env["VERIF_C12_RANDOM"] = "1500" if wrapper else "15000"
             env.update(h.env)
             cmd = (wrapper or []) + [h.bin, "--out", out, "--replay-out", rep]
             rc, log, wall = core.run(cmd, env=env, timeout=4 * 3600)
